@@ -517,7 +517,7 @@ fn run_host<H: Host>(mut host: H, c: &AgentCfg, cs: &mut AgentCensus, tallies: &
 }
 
 pub fn c16(ctx: &Ctx) -> i32 {
-    let n_cfg = ctx.tier.pick(30_000, 600_000);
+    let n_cfg = ctx.tier.pick(60_000, 1_500_000);
     let next = AtomicUsize::new(0);
     let n_viol = AtomicUsize::new(0);
     let merged = Mutex::new((AgentCensus::default(), Tallies::new(), Vec::<Violation>::new(), Vec::<u64>::new(), Vec::<serde_json::Value>::new()));
